@@ -16,6 +16,7 @@ INT_RANGE = {
     "isize": (-2 ** 63, 2 ** 63 - 1), "bool": (0, 1), "char": (0, 0x10FFFF),
 }
 LEN_MAX = 2 ** 63 - 1     # allocation bound: no slice / Vec is longer than isize::MAX bytes
+ALLOC_TOTAL = 2 ** 62     # assumption A2: the sizes of simultaneously live buffers sum to less than 2^62 (address space)
 
 
 class Lin:
@@ -84,6 +85,10 @@ def fm_infeasible(cons, limit=400):
         cons = rest + new
         if len(cons) > limit:
             return False      # give up (sound: "not proven")
+
+
+FACT_HOOKS = []      # lemma-provided facts about opaque expressions: f(cx, expr, atom)
+USED_LEMMAS = {}
 
 
 class Ctx:
@@ -336,6 +341,8 @@ class Ctx:
         return base, take
 
     def opaque_facts(self, e, me):
+        for hook in FACT_HOOKS:
+            hook(self, e, me)
         rp = self.ret_path(e)
         if rp is not None:
             call, path = rp
@@ -380,6 +387,11 @@ class Ctx:
             return rt
         if h == "var":
             vb = self.var_bounds(e[1])
+            at = self.__dict__.get("_at")
+            if at is not None and vb is not None:
+                ba = self.bound_at(e[1], at)
+                if ba is not None:
+                    vb = (vb[0], min(vb[1], ba))
             if vb is not None:
                 return vb
             return self.rng(self.ty_of(e))
@@ -397,6 +409,11 @@ class Ctx:
                     return (0, min(x[1] for x in oth))
             if op == "Shr" and a and b and b[0] == b[1] and a[0] >= 0 and 0 <= b[0] < 128:
                 return (a[0] >> b[0], a[1] >> b[0])
+            if op == "Shl" and a and b and b[0] != b[1] and a[0] >= 0 and 0 <= b[0] and b[1] < 128:
+                r = self.rng(self.ty_of(e))
+                hi = a[1] << b[1]
+                if r and hi <= r[1]:
+                    return (0, hi)
             if op == "Shl" and a and b and b[0] == b[1] and a[0] >= 0 and 0 <= b[0] < 128:
                 r = self.rng(self.ty_of(e))
                 hi = a[1] << b[0]
@@ -436,6 +453,20 @@ class Ctx:
                 return ri
         if h == "proj" or h == "call":
             rp = self.ret_path(e)
+            if rp is not None:
+                lo = hi = None
+                for (cps, terms, const) in postconditions(self.u, rp[0][3]):
+                    if len(terms) == 1 and terms[0][0] == ("ret", rp[1]):
+                        if terms[0][1] == 1:
+                            hi = -const if hi is None else min(hi, -const)
+                        elif terms[0][1] == -1:
+                            lo = const if lo is None else max(lo, const)
+                if lo is not None or hi is not None:
+                    r = self.rng(self.ty_of(e)) or (None, None)
+                    lo = r[0] if lo is None else lo
+                    hi = r[1] if hi is None else hi
+                    if lo is not None and hi is not None:
+                        return (lo, hi)
             if rp is not None and rp[1] == ():
                 k = bitacc_summary(self.u, rp[0][3])
                 if k is not None and k < len(rp[0][2]):
@@ -444,6 +475,10 @@ class Ctx:
                         return (0, 2 ** n[1] - 1)
         if h == "call":
             n = e[1]
+            if n.split("::")[-1] == "len" and e[2]:
+                w = self.const_width(e[2][0])
+                if w is not None:
+                    return (w, w)
             if n.split("::")[-1] in ("len", "count"):
                 return (0, LEN_MAX)
             if n == "std::convert::num::from" and e[2]:
@@ -479,10 +514,13 @@ class Ctx:
             return r
         lo, hi = None, None
         inc = dec = False
+        lensum = False
         for d in ds:
             if d[0] != "stmt":
                 name, info = mir.callee(d[2])
                 iv = ret_interval(self.u, name) if (self.u is not None and name in self.u.bodies) else None
+                if iv is None:
+                    iv = self.interval(sym.expr_def(self.b, d, stop=(l,)))
                 iv = iv or r
             else:
                 e = sym.expr_rv(self.b, d[3]["rv"], stop=(l,))
@@ -495,12 +533,34 @@ class Ctx:
                             dec = True
                         continue
                     return r
-                iv = self.interval(e) or r
+                if self.length_accumulation(e, l, d[1]):
+                    lensum = True
+                    continue
+                saved_at = self.__dict__.get("_at")
+                self._at = d[1]
+                try:
+                    if e[0] == "bin" and e[1] == "BitOr" and e[2][:2] == ("var", l):
+                        # or-accumulation `v |= x`: never sets a bit above the highest bit of any x (or of the other definitions)
+                        x = self.interval(e[3])
+                        iv = (0, (1 << x[1].bit_length()) - 1) if (x is not None and x[0] >= 0) else r
+                        if iv[1] > r[1]:
+                            iv = r
+                    else:
+                        iv = self.interval(e) or r
+                finally:
+                    self._at = saved_at
             lo = iv[0] if lo is None else min(lo, iv[0])
             hi = iv[1] if hi is None else max(hi, iv[1])
         if lo is None:
             return r
         out = (r[0] if dec else max(lo, r[0]), r[1] if inc else min(hi, r[1]))
+        if lensum and not inc and not dec and hi == 0 and lo == 0:
+            # L-ALLOC: starts at 0 and only ever grows by the length of one element of a live collection per iteration of
+            # a loop over that collection, through a checked add: bounded by the total size of live buffers (assumption A2)
+            out = (0, min(r[1], ALLOC_TOTAL))
+            USED_LEMMAS["L-ALLOC"] = USED_LEMMAS.get("L-ALLOC", 0) + 1
+        elif lensum:
+            out = r
         cache[l] = out
         if inc and not dec and LEN_MAX < out[1]:
             # candidate inductive bound v <= LEN_MAX: every definition keeps it, assuming it for the previous value
@@ -566,6 +626,118 @@ class Ctx:
                 break
         return None
 
+    def const_width(self, x):
+        """L-WIDTH: the buffer is the result of a local zero-argument byte producer whose symbolic production (layout
+        interpreter, HIR) has a constant width"""
+        while x[0] == "ref":
+            x = x[1]
+        if not (x[0] == "call" and len(x) > 3 and self.u is not None and x[3] in self.u.bodies and not x[2]):
+            return None
+        key = x[3]
+        if key in _WIDTH:
+            return _WIDTH[key]
+        _WIDTH[key] = None
+        try:
+            from . import layout as LY
+            hn = mir.norm(key)
+            cands = [k for k in self.u.hir if k == hn or mir.norm(k) == hn]
+            if len(cands) == 1:
+                w = LY.width(LY.Interp(self.u).production(cands[0], []))
+                if w.is_const():
+                    _WIDTH[key] = int(w.const)
+                    USED_LEMMAS["L-WIDTH"] = USED_LEMMAS.get("L-WIDTH", 0) + 1
+        except Exception:
+            _WIDTH[key] = None
+        return _WIDTH[key]
+
+    def length_accumulation(self, e, l, bb):
+        """e = unwrap/`?` of checked_add(l, len(<element of collection P>) as T), in a loop driven by iter(&P)"""
+        x = e
+        while True:
+            if x[0] == "proj":
+                x = x[1]
+            elif x[0] == "call" and (x[1].endswith("Try>::branch") or x[1].split("::")[-1] in ("unwrap", "expect", "ok_or_else", "ok_or")) and x[2]:
+                x = x[2][0]
+            else:
+                break
+        if not (x[0] == "call" and x[1].split("::")[-1] == "checked_add" and len(x[2]) == 2 and x[2][0][:2] == ("var", l)):
+            return False
+        y = x[2][1]
+        while y[0] == "cast":
+            y = y[4]
+        if not (y[0] == "call" and y[1].split("::")[-1] == "len" and y[2]):
+            return False
+        key = self.len_key(y[2][0])
+        if not (isinstance(key[1], str) and ".[]." in key[1]):
+            return False
+        coll = key[1].split(".[].")[0]
+        inner = None
+        for (h, latches, blocks) in self.natural_loops():
+            if bb in blocks and (inner is None or len(blocks) < len(inner)):
+                inner = blocks
+        if inner is None:
+            return False
+        for b2 in sorted(inner):
+            t = self.b["blocks"][b2]["term"]
+            if t["k"] == "call":
+                name, info = mir.callee(t)
+                if (name or "").endswith("::next") and t["args"]:
+                    cur = sym.expr(self.b, t["args"][0])
+                    txt = sym.show(cur)
+                    if ("[%s]" % coll) in txt and ("iter" in txt):
+                        return True
+        return False
+
+    def bound_at(self, l, bb):
+        """upper bound of an increment-only counter at block bb when bb precedes the step inside the iteration: at most
+        N-1 steps have happened (N = trip count of the loop holding the steps)"""
+        cache = self.__dict__.setdefault("_bat", {})
+        if (l, bb) in cache:
+            return cache[(l, bb)]
+        cache[(l, bb)] = None
+        ds = self.defs.get(l, [])
+        if self.pdefs.get(l) or len(ds) < 2:
+            return None
+        init_hi = None
+        steps = []
+        for d in ds:
+            if d[0] != "stmt":
+                return None
+            e = sym.expr_rv(self.b, d[3]["rv"], stop=(l,))
+            if e[0] == "proj" and e[2] == "0" and e[1][0] == "bin" and e[1][1] == "AddWithOverflow" and e[1][2][:2] == ("var", l):
+                iv = self.interval(e[1][3])
+                if iv is None or iv[0] < 0:
+                    return None
+                steps.append((d[1], iv[1]))
+            else:
+                iv = self.interval(e)
+                if iv is None:
+                    return None
+                init_hi = iv[1] if init_hi is None else max(init_hi, iv[1])
+        if not steps or init_hi is None:
+            return None
+        loop = None
+        for (h, latches, blocks) in self.natural_loops():
+            if all(sb in blocks for sb, _ in steps) and bb in blocks and (loop is None or len(blocks) < len(loop[2])):
+                loop = (h, latches, blocks)
+        if loop is None:
+            return None
+        h, latches, blocks = loop
+        if any(sb in bl and len(bl) < len(blocks) for sb, _ in steps for (_h, _l, bl) in self.natural_loops()):
+            return None                       # a step inside a nested loop can run many times per iteration
+        n = self.trip_count(blocks)
+        if n is None or n < 1:
+            return None
+        for sb, _ in steps:
+            for s_ in mir.succs(self.b, sb):
+                if s_ != h and bb in self.reach_avoid(s_, h):
+                    return None               # bb can follow the step within one iteration
+            if sb == bb:
+                return None
+        out = init_hi + sum(k for _, k in steps) * (n - 1)
+        cache[(l, bb)] = out
+        return out
+
     def trip_bounded(self, l, ds, init_lo, init_hi):
         steps = []
         for d in ds:
@@ -582,9 +754,9 @@ class Ctx:
             for (h, latches, blocks) in self.natural_loops():
                 if sbb in blocks and (inner is None or len(blocks) < len(inner)):
                     inner = blocks
-            if inner is None or iv is None:
+            if iv is None:
                 return None
-            n = self.trip_count(inner)
+            n = 1 if inner is None else self.trip_count(inner)     # outside every loop: executed at most once
             if n is None:
                 return None
             total += n * iv[1]
@@ -671,8 +843,8 @@ class Ctx:
         if self.u is None or not (e[0] == "proj" and isinstance(e[2], str) and not e[2].startswith("as ") and not e[2].isdigit()):
             return None
         root = e[1]
-        while root[0] == "proj":
-            root = root[1]
+        while root[0] == "proj" or (root[0] == "call" and (root[1].endswith("Try>::branch") or root[1].split("::")[-1] in ("unwrap", "expect")) and root[2]):
+            root = root[1] if root[0] == "proj" else root[2][0]
         if not (root[0] == "call" and len(root) > 3 and root[3] in self.u.bodies):
             return None
         return struct_field_interval(self.u, e[2], self.ty_of_field(e))
@@ -1190,6 +1362,7 @@ def postconditions(u, fn):
 
 
 _PF = {}
+_WIDTH = {}
 
 
 def _call_sites(u, fn):
